@@ -1150,7 +1150,7 @@ def kill_history(ctx, drv, sets1, phase2, bufsize, sk, flag, cap, boundaries=Non
         bs = list(range(last_begin + 1, len(ops1)))
         if boundaries is not None:
             bs = [b for b in bs if b in boundaries]
-        elif len(bs) > 6:
+        elif npoints is not None:
             bs = spread(bs, npoints)
         for b in bs:
             ctx._c17_base = len(ctx.oracle_failures)
@@ -1608,6 +1608,15 @@ def run(ctx):
             keys = ctx.rng.choice([KEYS, KEYS[:3], KEYS[3:8], ["a", "q/r/a", "q/r/b"], ["logs/app", "logs\\app", "a"]])
             n = ctx.rng.randrange(2, 6 if quick else 9)
             plans.append((gen_sets(ctx.rng, n, keys), 16 if s % 3 == 2 else None))
+        # sibling directories one of whose names is a proper string prefix of the other's (2024 / 2024-01, pp / pp2,
+        # and a directory next to a FILE whose name it extends), set in both orders on one store object
+        for s in range(2 if quick else 8):
+            short, long_ = ctx.rng.choice([("d2024", "d2024-01"), ("pp", "pp2"), ("q/r", "q/r1"), ("a", "ab")])
+            ks, kl = (short if short == "a" else short + "/t"), long_ + "/t"
+            first, second = (kl, ks) if s % 2 == 0 else (ks, kl)
+            sets = [(first, gen_value(ctx.rng))] + gen_sets(ctx.rng, ctx.rng.randrange(0, 2), ["b", "p/a"]) + \
+                   [(second, gen_value(ctx.rng)), (ctx.rng.choice([first, second, long_ + "/u"]), gen_value(ctx.rng))]
+            plans.append((sets, 16 if s % 3 == 2 else None))
         # values around io-buffer / 64 KiB boundaries (crash images sampled, see py_sample_images)
         for s in range(2 if quick else 12):
             keys = ctx.rng.choice([["a", "p/a"], ["b", "q/r/a", "a"]])
@@ -1645,7 +1654,7 @@ def run(ctx):
                 sets1 = gen_sets(ctx.rng, ctx.rng.randrange(0, 2), keys) + [(k, v2)]
                 phase2 = [(k, v2)] + gen_sets(ctx.rng, 1, ["n/x/b", "n/b"])
             runs += kill_history(ctx, drv, sets1, phase2, 16 if h % 2 else None, model_sk, bool(flag), cap,
-                                 R=ctx.rng.choice([PRE, "r1", PRE + "/r1"]), npoints=4 if quick else None)
+                                 R=ctx.rng.choice([PRE, "r1", PRE + "/r1"]), npoints=4 if quick and h % 2 else None)
         # error paths: one transient OSError at each file-system operation of a set of a new key, then a retry
         for h in range(1 if quick else 4):
             k = ctx.rng.choice(["n/x/a", "n/a", "fresh", "p/new"])
